@@ -353,6 +353,10 @@ func r15_2(r *Report, p *Program) {
 	for _, cs := range callsTo(p.Func("controller/common/customize.Manager.findRelatedParents"), false, "customize.matchesRelatedRule") {
 		a := E(cs.Common().Args[4])
 		okK = strings.Contains(a, "Clientset.Resource)(p0.dynClient") && strings.Contains(a, ".APIVersion") && strings.Contains(a, ".Resource") && strings.HasSuffix(a, ".Kind")
+		// the scope flag is the PARENT's (as GetRelatedObjects takes it: parentKinds.Get(parent's group-kind).Namespaced)
+		if a0 := E(cs.Common().Args[0]); !(strings.Contains(a0, "GroupKindMap.Get)(p0.parentKinds") && strings.HasSuffix(a0, ".Namespaced")) {
+			okK = false
+		}
 	}
 	gate := false
 	for _, pa := range paths {
